@@ -32,8 +32,25 @@ def _cases(rng, n):
     return cases
 
 
+def _engine_cases(rng, n):
+    """end-to-end family: the model gets the timeline input only (per datum the
+    axis position the implementation computed, width, text; options) and must
+    reproduce layers, positions, stub chains, sizes, nodeHeight and the drawn
+    boxes through Compose.v -> Force.layout -> scene_labels (command 800)"""
+    cases = []
+    for c in _cases(rng, n):
+        c["kind"] = "engine:" + c["kind"].split("/")[0]
+        c["py"]["engine"] = True
+        cases.append(c)
+    return cases
+
+
 def gen(rng, tier):
-    cases = _cases(rng, 1600 if tier == "quick" else 7000)
+    import os
+    only = os.environ.get("VERIF_C08_ONLY")      # diagnostic switch: "engine" or "classic" family alone
+    cases = [] if only == "engine" else _cases(rng, 1600 if tier == "quick" else 7000)
+    if only != "classic":
+        cases += _engine_cases(rng, 400 if tier == "quick" else 5000)
     rc.attach_models(MODNAME, cases)
     for c in cases:
         yield c
@@ -76,7 +93,7 @@ def extra_evidence(cases, impl_out, model_out):
 def search(rng, tier, mism):
     for c in mism:
         yield c
-    extra = _cases(rng, 300)
+    extra = _cases(rng, 300) + _engine_cases(rng, 100)
     rc.attach_models(MODNAME, extra, "search")
     for c in extra:
         yield c
